@@ -228,6 +228,20 @@ Definition echo_eq (a b : echo_key) : bool :=
   (i1 =? i2) && (s1 =? s2)
   && (if lenN d2 <=? lenN d1 then is_prefix d2 d1 else is_prefix d1 d2).
 
+(* The waiter table is a HashMap keyed by Echo. What the hash of a key looks at:
+   [ids_only] (= ECHO_HASH_OF_ID_AND_SEQ) => the identifier and the sequence number; otherwise the data too.
+   A probe finds a stored key only when the two are equal and hash alike. *)
+Definition echo_hashed (ids_only : bool) (k : echo_key) : echo_key :=
+  let '(i, s, d) := k in if ids_only then (i, s, []) else k.
+
+Definition key_same (a b : echo_key) : bool :=
+  let '(i1, s1, d1) := a in
+  let '(i2, s2, d2) := b in
+  (i1 =? i2) && (s1 =? s2) && list_eqb N.eqb d1 d2.
+
+Definition waiter_found (ids_only : bool) (stored probe : echo_key) : bool :=
+  echo_eq stored probe && key_same (echo_hashed ids_only stored) (echo_hashed ids_only probe).
+
 (* ---------- http_icmp_codec ---------- *)
 
 Record icmp_request := {
